@@ -265,6 +265,9 @@ void ezc3d::c3d::parameter(const std::string &groupName, const ezc3d::Parameters
     if (!p.name().compare("")){
         throw std::invalid_argument("Parameter must have a name");
     }
+    // Check the type before possibly creating the group, so a refused parameter leaves the c3d unchanged
+    if (p.type() == ezc3d::DATA_TYPE::NONE)
+        throw std::runtime_error("Data type is not set");
 
     size_t idx;
     try {
@@ -354,12 +357,17 @@ void ezc3d::c3d::point(const std::vector<ezc3d::DataNS::Frame>& frames)
         throw std::invalid_argument("Points in the frames cannot be empty");
 
     std::vector<std::string> labels(parameters().group("POINT").parameter("LABELS").valuesAsString());
+    // Validate all the new points before adding any, so a refused call leaves the c3d unchanged
     for (size_t idx = 0; idx < frames[0].points().nbPoints(); ++idx){
         const std::string &name(frames[0].points().point(idx).name());
         for (size_t i=0; i<labels.size(); ++i)
             if (!name.compare(labels[i]))
                 throw std::invalid_argument("The point you try to create already exists in the data set");
-
+    }
+    for (size_t idx = 0; idx < frames[0].points().nbPoints(); ++idx)
+        for (size_t f=0; f<data().nbFrames(); ++f)
+            frames[f].points().point(idx); // throws if the point is missing in that frame
+    for (size_t idx = 0; idx < frames[0].points().nbPoints(); ++idx){
         for (size_t f=0; f<data().nbFrames(); ++f)
             _data->frame_nonConst(f).points_nonConst().point(frames[f].points().point(idx));
     }
@@ -388,22 +396,30 @@ void ezc3d::c3d::analog(const std::string &name)
 
 void ezc3d::c3d::analog(const std::vector<ezc3d::DataNS::Frame> &frames)
 {
-    if (frames.size() != data().nbFrames())
+    if (frames.size() == 0 || frames.size() != data().nbFrames())
         throw std::invalid_argument("Size of the array of frames must equal the number of frames already "
                                     "present in the data set");
     if (frames[0].analogs().nbSubframes() != header().nbAnalogByFrame())
         throw std::invalid_argument("Size of the subframes in the frames must equal the number of subframes "
                                     "already present in the data set");
-    if (frames[0].analogs().subframe(0).nbChannels() == 0)
+    if (frames[0].analogs().nbSubframes() == 0 || frames[0].analogs().subframe(0).nbChannels() == 0)
         throw std::invalid_argument("Channels in the frame cannot be empty");
 
     std::vector<std::string> labels(parameters().group("ANALOG").parameter("LABELS").valuesAsString());
+    // Validate all the new channels before adding any, so a refused call leaves the c3d unchanged
     for (size_t idx = 0; idx < frames[0].analogs().subframe(0).nbChannels(); ++idx){
         const std::string &name(frames[0].analogs().subframe(0).channel(idx).name());
         for (size_t i=0; i<labels.size(); ++i)
             if (!name.compare(labels[i]))
                 throw std::invalid_argument("The channel you try to create already exists in the data set");
-
+    }
+    for (size_t idx = 0; idx < frames[0].analogs().subframe(0).nbChannels(); ++idx)
+        for (size_t f=0; f < data().nbFrames(); ++f)
+            for (size_t sf=0; sf < header().nbAnalogByFrame(); ++sf){
+                data().frame(f).analogs().subframe(sf); // throws if the subframe is missing in the data set
+                frames[f].analogs().subframe(sf).channel(idx); // throws if the channel is missing in that subframe
+            }
+    for (size_t idx = 0; idx < frames[0].analogs().subframe(0).nbChannels(); ++idx){
         for (size_t f=0; f < data().nbFrames(); ++f){
             for (size_t sf=0; sf < header().nbAnalogByFrame(); ++sf){
                 _data->frame_nonConst(f).analogs_nonConst().subframe_nonConst(sf).channel(frames[f].analogs().subframe(sf).channel(idx));
